@@ -1457,7 +1457,7 @@ def _build_fn(sf: SourceFile, item: Item, impl, ex: Extract, props, rep, unit, a
     body_toks = list(toks_all[item.hdr_end:item.end])   # includes braces
 
     # optional: inline block extraction (R0 anchors)
-    if "block_from" in a or "block_back" in a or "block_arm" in a:
+    if "block_from" in a or "block_back" in a or "block_arm" in a or "field_init" in a:
         body_toks = _extract_block(body_toks, a.get("block_from", ""), a.get("block_to"), a, rep)
         sig_toks = lex(a["wrap"])
         qual = qual + "#" + (a.get("blockname") or "block")
@@ -1712,7 +1712,7 @@ def _build_fn(sf: SourceFile, item: Item, impl, ex: Extract, props, rep, unit, a
         rep.append(("R0", f"fn renamed to {ex.rename}"))
     where_txt = ""
     wpos = _top_level_where(sig_toks)
-    if wpos is not None and "block_from" not in a and "block_back" not in a and "block_arm" not in a:
+    if wpos is not None and "block_from" not in a and "block_back" not in a and "block_arm" not in a and "field_init" not in a:
         where_txt = text_of(sig_toks[wpos:]).strip()
         sig_text = text_of(sig_toks[:wpos]).rstrip()
     if ex.ret:
@@ -1982,6 +1982,29 @@ def _clause_lines(c, indent="        "):
 
 
 def _extract_block(body_toks, frm, to, a, rep):
+    if a.get("field_init"):
+        # the initializer expression of field `name:` in a struct literal of the function body (`name: EXPR,`)
+        name = a["field_init"]
+        hits = []
+        for i, t in enumerate(body_toks):
+            if t.kind == IDENT and t.text == name:
+                nx = _next_sig(body_toks, i); pv = _prev_sig(body_toks, i)
+                if nx < len(body_toks) and body_toks[nx].text == ":" and body_toks[_next_sig(body_toks, nx)].text != ":" \
+                        and pv >= 0 and body_toks[pv].text in (",", "{"):
+                    hits.append(nx)
+        if len(hits) != 1:
+            raise AnchorLost(f"field_init {name!r}: {len(hits)} struct-literal fields of that name")
+        k = hits[0] + 1
+        st = k
+        while k < len(body_toks):
+            tk = body_toks[k]
+            if tk.kind == PUNCT and tk.text in OPEN:
+                k = match_close(body_toks, k) + 1; continue
+            if tk.kind == PUNCT and tk.text in (",", "}"):
+                break
+            k += 1
+        rep.append(("R0", f"field initializer `{name}: ...` wrapped as `{a['wrap']}`"))
+        return [T(PUNCT, "{"), T(WS, "\n")] + body_toks[st:k] + [T(WS, "\n"), T(PUNCT, "}")]
     if a.get("block_arm"):
         # the whole body `{ ... }` of the match arm whose pattern text is given (`PATTERN =>`): whatever statements a
         # change adds to the arm are inside the block
